@@ -31,14 +31,9 @@ Result = core.Result
 REQUIRED_THEOREMS = [
     "C08.encode_perm_invariant",
     "C08.encode_seed_free",
-    "C08.encode_injective_partial",
-    "C08.first_opcode_discriminates",
-    "C08.discriminates_1_1f_True",
-    "C08.discriminates_str_bytes",
-    "C08.discriminates_list_tuple",
-    "C08.discriminates_set_frozenset",
     "C08.old_frozenset_order_dependent_counterexample",
     "C08.fallback_collision_counterexample",
+    "C08.fallback_collision_dict_counterexample",
 ]
 TRUSTED_EXTRA = [
     "modelled, not verified: md5/sha1 (the theorems are about the byte stream handed to the digest; 'different stream => "
